@@ -1,6 +1,6 @@
 (* ApiV2/Props.v — property C15: the theorems, nothing else.
    Each is closed by [exact <lemma>] and followed by Print Assumptions. *)
-From Verif Require Import ApiV2.Model ApiV2.ProofsKey ApiV2.ProofsRegion ApiV2.ProofsStore ApiV2.ProofsPD ApiV2.ProofsProgram ApiV2.Pool ApiV2.ProofsPool ApiV2.Catalogue.
+From Verif Require Import ApiV2.Model ApiV2.ProofsKey ApiV2.ProofsRegion ApiV2.ProofsStore ApiV2.ProofsPD ApiV2.ProofsProgram ApiV2.Pool ApiV2.ProofsPool ApiV2.PoolFail ApiV2.Catalogue.
 Open Scope N_scope.
 
 (* --- keys --- *)
@@ -274,6 +274,14 @@ Theorem C15_pool_callers_untouched : forall br bm h0 h, inv br bm h0 h ->
 Proof. exact callers_untouched. Qed.
 Print Assumptions C15_pool_callers_untouched.
 
+(* the same with transmissions that fail below the codec (connection error, timeout): SendRequest returns before
+   DecodeResponse, the encoded request is not recycled, the caller re-sends the same object *)
+Theorem C15_pool_safety_failures : forall c br bm h0 sch h ws h', inv br bm h0 h ->
+  Forall (fun x => (fst (fst x) < br)%nat) sch -> sendsx real c sch h = (ws, h') ->
+  inv br bm h0 h' /\ ws = map (fun x => wire_spec c h0 (fst (fst x))) sch.
+Proof. exact sendsx_real. Qed.
+Print Assumptions C15_pool_safety_failures.
+
 (* each deviation that was seeded into the code is refuted by a schedule of two or three transmissions *)
 Theorem C15_pool_decode_caller_refuted :
   fst (sends (mkflags true false false false) demo_ks [(0, 0); (0, 0); (0, 0)]%nat demo_heap)
@@ -382,6 +390,11 @@ Example ex_pool : inv 3%nat 3%nat demo_heap demo_heap /\
   fst (sends real demo_ks [(0, 0); (1, 0); (0, 0); (2, 5); (1, 1); (0, 0)]%nat demo_heap)
   = [([[120; 0; 1; 2; 7]], Some true); ([], Some true); ([[120; 0; 1; 2; 7]], Some true); ([[120; 0; 1; 2; 9]], Some true); ([], Some true); ([[120; 0; 1; 2; 7]], Some true)].
 Proof. split; [exact demo_inv|exact demo_real]. Qed.
+Example ex_pool_failures :
+  let '(ws, h) := sendsx real demo_ks [(0, 0, false); (0, 0, false); (0, 0, true); (1, 0, false); (0, 0, true)]%nat demo_heap in
+  ws = [([[120; 0; 1; 2; 7]], Some true); ([[120; 0; 1; 2; 7]], Some true); ([[120; 0; 1; 2; 7]], Some true); ([], Some true); ([[120; 0; 1; 2; 7]], Some true)]
+  /\ pool h = [6]%nat /\ next_r h = 7%nat.
+Proof. exact demo_fail. Qed.
 Example ex_program_with_retries :
   let a := mkks Raw 255 in let b := mkks Raw 256 in
   let phys := [([], [114;0;0;255;109]); ([114;0;0;255;109], [114;0;1]); ([114;0;1], [114;0;1;0]); ([114;0;1;0], [])] in
